@@ -3,3 +3,15 @@ check('C17', 'model_checking',
       'Explicit-state exploration of the real Queue / UniformSamplingQueue / PmapWrapper / PjitWrapper objects: every operation sequence over {insert k, sample} up to the tier depth for capacity 1-5, batch 1-4, all modes, 2-4 shards, each transition compared with a list-based reference model; then BFS closure of the canonical state graph.',
       'Trusts the 40-line reference model and data independence of the implementation (cross-checked by bisimulation on the full tree). Sampling an empty uniform queue is not enabled.',
       'explicit-state DFS over all op sequences + BFS closure, real implementation stepped, reference-model oracle', 'DESIGN.md 4/C17')
+check('C15', 'model_checking',
+      'Explicit-state exploration of the real training.wrap / EvalWrapper / generate_unroll / Evaluator on a scripted environment whose done answer the explorer owns: all done-patterns up to the tier depth expanded level-synchronously as members of one batch for L in 1..6, R in 1..3, every member compared with a per-member reference after every wrapped step, then BFS with canonical de-duplication to closure.',
+      'Trusts the 50-line per-member reference; least-demanding reading of mid-repeat termination (done flag after the last sub-step). brax.v1 is stubbed so acting imports.',
+      'explicit-state level-synchronous tree expansion + canonical-state BFS closure on the real wrappers, reference-model oracle', 'DESIGN.md 4/C15')
+check('C18', 'model_checking',
+      'All update histories of a data set: the full tree of compositions into consecutive batches x batch-axis factorisations x weight assignments (exhaustive in {0..4}^n for n<=4) is walked on the real update(); every node compared with exact Fraction statistics of the consumed prefix; normalize/denormalize checked at leaves.',
+      'Trusts exact rational arithmetic; tolerance 1e-9 of the data scale (float64).',
+      'explicit enumeration of all batch-partition histories with prefix sharing, exact-arithmetic oracle at every state', 'DESIGN.md 4/C18')
+check('C19', 'exploration',
+      'Every mask word over {none,terminated,truncated}^T (exhaustive to T=6 quick / 8 thorough, structured beyond) x (lambda,discount) grid x basis of the linear input space, compared with the defining sum in exact rational arithmetic; gradient required exactly zero.',
+      'Linearity in rewards/values/bootstrap makes the basis a determining set; degree<=T polynomial in lambda, discount decided for T<=3.',
+      'bounded exhaustive enumeration of mask histories x determining input set, exact-arithmetic oracle', 'DESIGN.md 4/C19')
